@@ -21,6 +21,8 @@ ASSUMPTIONS = ["the subgroup has finite index (the routine asserts a 100000-row 
 
 def run(ctx):
     g = ctx.facts.getters()
+    ctx.clauses.append("relator scans: both exits report (row reached, letters consumed); scan_both_ways = (head with full budget, tail with the rest, gap, w[i]) (T9)")
+    relator_scan_shape(ctx, "T9-relator-scan", g)
     ct = ctx.body("fpgroups::cosets::coset_table")
     ctx.scan([ct])
     # ---------- (1) scans in coset_table
